@@ -921,7 +921,14 @@ func c18Judge(env *fw.Env, p *c18Plan, sc *c18Scenario, final bool) {
 				if count[s] == 0 {
 					key, why := "successful-send-not-delivered", ""
 					if shape := c18UnackedBlock(sc, role, s); shape != "" {
-						key, why = "successful-send-not-delivered:stale-control-character", " — "+shape
+						// the known finding (F12) is about characters ALREADY IN FLIGHT: it needs a late character on the
+						// line (an applied delay that can outlast a wait, or a re-request after a forwarded grant).
+						// Without one, a block that was never acknowledged and still counted as sent is something else.
+						if late := c18LateCharacters(p, sc); late != "" {
+							key, why = "successful-send-not-delivered:stale-control-character", " — "+shape+" ["+late+"]"
+						} else {
+							key, why = "successful-send-not-delivered:block-never-acknowledged", " — "+strings.Replace(shape, "(a control character that was already in flight was taken as this block's ACK)", "(and no character was late on this line: what the sender took for the ACK was not one)", 1)
+						}
 					} else if td := c18AckedThenClosed(sc, role, s); td != "" {
 						key, why = "successful-send-not-delivered:acked-during-link-teardown", " — "+td
 					} else if late := c18LateCharacters(p, sc); late != "" {
